@@ -129,6 +129,8 @@ def build(ctx):
                         continue
                     if context == "after-select" and (pos != "kw" or (ctx.quick and rs != tuple(sorted(rs, key=str)))):
                         continue
+                    if ctx.quick and pos == "two-sets" and context == "loop":
+                        continue        # (5 transforms x 3 iterations: thorough tier)
                     if ctx.quick and context == "loop" and k == 3 and rs != tuple(sorted(rs, key=str)):
                         continue
                     cases.append((si, tuple(rs), pos, context, not ctx.quick))
